@@ -111,13 +111,22 @@ func FmtRandom(rng *rand.Rand, id int) *FmtCase {
 	if nin > 0 && rng.Intn(2) == 0 {
 		c.Tags["in1.tg"] = fmtVals[rng.Intn(len(fmtVals))]
 	}
+	if nin > 0 && rng.Intn(3) == 0 {
+		c.Tags["in1.aa"] = fmtVals[rng.Intn(len(fmtVals))]
+		c.Tags["in1.zz"] = fmtVals[rng.Intn(len(fmtVals))]
+	}
 	if rng.Intn(5) == 0 {
-		n := rng.Intn(4)
-		var ms []string
-		for i := 0; i < n; i++ {
-			ms = append(ms, fmtInPaths[rng.Intn(len(fmtInPaths))])
+		for _, jp := range []string{"jn", "jm"} {
+			n := rng.Intn(4)
+			var ms []string
+			for i := 0; i < n; i++ {
+				ms = append(ms, fmtInPaths[rng.Intn(len(fmtInPaths))])
+			}
+			c.Joined[jp] = ms
+			if rng.Intn(2) == 0 {
+				break
+			}
 		}
-		c.Joined["jn"] = ms
 	}
 	var toks []string
 	toks = append(toks, "tool")
